@@ -1,6 +1,7 @@
 """C01 — every accepted derive request expands to code that compiles; every documented form is accepted."""
 import importlib
 import itertools
+import re
 
 from ..core import Case, guard, rt_run, log, shash
 
@@ -91,6 +92,10 @@ def exotic_cases():
         'tuple0': '#[derive(Educe)]\n{A}pub struct Ty();\n',
         'named0': '#[derive(Educe)]\n{A}pub struct Ty {{}}\n',
         'visibility': '#[derive(Educe)]\n{A}pub(crate) struct Ty {{ pub(crate) a: u8, b: u16, pub(super) c: u8 }}\n',
+        # differently typed fields whose names differ by (the tail of) a binding prefix or equal a template local: a clash cannot type-check
+        'prefix-names': '#[derive(Educe)]\n{A}pub struct Ty {{ pub x: u8, pub o_x: &\'static str, pub s_x: u16, pub d_x: bool, pub v_x: char, pub _x: i8, pub __x: i16, pub _s_x: i32, pub _o_x: i64 }}\n',
+        'prefix-names-enum': '#[derive(Educe)]\n{A}pub enum Ty {{ {VD}A {{ x: u8, o_x: &\'static str, s_x: u16, d_x: bool, v_x: char, _x: i8, __x: i16, _s_x: i32, _o_x: i64 }}, B(u8, &\'static str) }}\n',
+        'local-names-enum': '#[derive(Educe)]\n{A}pub enum Ty {{ {VD}A {{ f: u8, builder: &\'static str, arg: u16, state: bool, other: char, source: i8, educe__f: i16, data: i32, size: i64 }}, B {{ _0: u8, _1: &\'static str, __0: u16, __1: bool }} }}\n',
         'doc-attrs': '/// docs\n#[derive(Educe)]\n#[allow(dead_code)]\n{A}pub struct Ty {{ /// field doc\n #[allow(unused)] pub a: u8 }}\n',
     }
     sets = {'all': allt, 'Debug': '#[educe(Debug)]\n', 'Clone': '#[educe(Clone)]\n', 'CopyClone': '#[educe(Copy, Clone)]\n', 'PartialEq': '#[educe(PartialEq, Eq)]\n',
@@ -146,7 +151,7 @@ def exotic_cases():
                 else:
                     out.append(Case('C01|genbound|%s|%s|%s' % (gk, sk, bk), src, {'shape': gk, 'traits': sk, 'bound': b}, expect='accept', run=False, depth=2))
     # several Into targets, each taken from its own field through a conversion that exists for that pair only
-    conv = [('String', "&'static str"), ('u16', 'u8'), ('u64', 'u32'), ('W', 'u16'), ('Vec<u8>', "&'static [u8; 2]"), ('f64', 'f32')]
+    conv = [('String', "&\'static str"), ('u16', 'u8'), ('u64', 'u32'), ('W', 'u16'), ('Vec<u8>', "&'static [u8; 2]"), ('f64', 'f32')]
     for r in (2, 3, 4):
         for sub in itertools.combinations(conv, r):
             for perm in (sub, sub[::-1]):
@@ -236,7 +241,15 @@ def check(v, tier):
         if r.status == 'ok':
             v.cov['traces_validated_against_impl'] += 1
             # comparing fn pointers warns for #[derive(PartialEq)] of the standard library as well: it is a property of the user's field type
-            gw = [d for d in r.warnings() if d['kind'] == 'generated' and d['code'] != 'unpredictable_function_pointer_comparisons']
+            # a derive may give its bindings the span of a user token (format_ident! with the field's span): such a diagnostic points into the user's text although
+            # the name it complains about exists nowhere in it - it is about generated code
+            def about_generated(d):
+                if d['kind'] == 'generated':
+                    return True
+                names = re.findall(r'`([A-Za-z_][A-Za-z0-9_]*)`', d['msg'])
+                return d['kind'] == 'hand' and d['code'] in ('non_snake_case', 'non_camel_case_types', 'non_upper_case_globals', 'unused_variables', 'unused_mut', 'unused_assignments') \
+                    and bool(names) and not re.search(r'(?<![A-Za-z0-9_])%s(?![A-Za-z0-9_])' % re.escape(names[0]), c.body)
+            gw = [d for d in r.warnings() if about_generated(d) and d['code'] != 'unpredictable_function_pointer_comparisons']
             if gw:
                 v.violation(c, 'the generated code compiles with warnings: %s' % '; '.join((d['code'] or '') + ' ' + d['msg'][:200] for d in gw[:2]))
             else:
